@@ -288,8 +288,13 @@ func subjects() []subject {
 				_ = p.Start()
 			}
 			task := pool.TaskFunc(func(ctx context.Context) error {
-				if time.Now().UnixNano()%3 == 0 {
+				switch n := time.Now().UnixNano() / 64; {
+				case n%3 == 0:
 					time.Sleep(20 * time.Microsecond)
+				case n%5 == 0:
+					panic("c15: task panic") // the recover branch of taskWrapper.Run, concurrently in several workers
+				case n%7 == 0:
+					return fmt.Errorf("c15: task error")
 				}
 				return nil
 			})
@@ -352,6 +357,149 @@ func subjects() []subject {
 				}},
 			}, none
 		}},
+	}
+}
+
+// bigSubjects: the inner containers at sizes where size-dependent fast paths (cursor / index caches, lazy
+// compaction, shrinking) would be active: >= 100 elements, SEVERAL concurrent readers (random indices in both
+// halves) and ONE writer that keeps the size.  ops[:readers] are the read-only methods, the rest is the writer's.
+type bigSubject struct {
+	subject
+	readers int
+}
+
+func bigListOps(l list.List[int], n int) []op {
+	return []op{
+		{"Get", func(r *rand.Rand) {
+			i := r.Intn(n / 2)
+			if r.Intn(2) == 0 {
+				i = n - 1 - i // second half: the list may be walked from the tail
+			}
+			_, _ = l.Get(i)
+			_, _ = l.Get(i) // the same index again (a cache hit, if there is a cache)
+		}},
+		{"Range", func(r *rand.Rand) {
+			s, stop := 0, r.Intn(n)
+			_ = l.Range(func(i int, v int) error {
+				s += v
+				if i == stop && stop%3 == 0 {
+					return fmt.Errorf("stop")
+				}
+				return nil
+			})
+		}},
+		{"Len", func(r *rand.Rand) { _ = l.Len(); _ = l.Cap() }},
+		{"AsSlice", func(r *rand.Rand) {
+			s := l.AsSlice()
+			if len(s) > 0 {
+				s[r.Intn(len(s))]++
+			}
+		}},
+		// writer: keeps the length in [n, n+2]
+		{"Set", func(r *rand.Rand) { _ = l.Set(r.Intn(n), r.Intn(100)) }},
+		{"Add+Delete", func(r *rand.Rand) {
+			_ = l.Add(r.Intn(n), r.Intn(100))
+			_, _ = l.Delete(r.Intn(n))
+		}},
+		{"Append+Delete", func(r *rand.Rand) {
+			_ = l.Append(r.Intn(100))
+			_, _ = l.Delete(r.Intn(n))
+		}},
+	}
+}
+
+func seq(n int) []int {
+	s := make([]int, n)
+	for i := range s {
+		s[i] = i
+	}
+	return s
+}
+
+func bigSubjects() []bigSubject {
+	none := func() {}
+	size := func(r *rand.Rand) int { return 100 + r.Intn(100) }
+	return []bigSubject{
+		{subject{"CopyOnWriteArrayList/big", func(r *rand.Rand) ([]op, func()) {
+			n := size(r)
+			return bigListOps(list.NewCopyOnWriteArrayListOf(seq(n)), n), none
+		}}, 4},
+		{subject{"ConcurrentList/ArrayList/big", func(r *rand.Rand) ([]op, func()) {
+			n := size(r)
+			return bigListOps(&list.ConcurrentList[int]{List: list.NewArrayListOf(seq(n))}, n), none
+		}}, 4},
+		{subject{"ConcurrentList/LinkedList/big", func(r *rand.Rand) ([]op, func()) {
+			n := size(r)
+			return bigListOps(&list.ConcurrentList[int]{List: list.NewLinkedListOf(seq(n))}, n), none
+		}}, 4},
+		{subject{"ConcurrentPriorityQueue/big", func(r *rand.Rand) ([]op, func()) {
+			n := size(r)
+			q := queue.NewConcurrentPriorityQueue[int]([]int{0, 4 * n}[r.Intn(2)], func(a, b int) int { return a - b })
+			for i := 0; i < n; i++ {
+				_ = q.Enqueue(r.Intn(1000))
+			}
+			return []op{
+				{"Peek", func(r *rand.Rand) { _, _ = q.Peek() }},
+				{"Len", func(r *rand.Rand) { _ = q.Len() }},
+				{"Cap", func(r *rand.Rand) { _ = q.Cap() }},
+				{"Enqueue+Dequeue", func(r *rand.Rand) { _ = q.Enqueue(r.Intn(1000)); _, _ = q.Dequeue() }},
+				{"Dequeue+Enqueue", func(r *rand.Rand) { _, _ = q.Dequeue(); _ = q.Enqueue(r.Intn(1000)) }},
+			}, none
+		}}, 3},
+		{subject{"ConcurrentLinkedBlockingQueue/big", func(r *rand.Rand) ([]op, func()) {
+			n := size(r)
+			q := queue.NewConcurrentLinkedBlockingQueue[int]([]int{0, 2 * n}[r.Intn(2)])
+			for i := 0; i < n; i++ {
+				_ = q.Enqueue(context.Background(), i)
+			}
+			return []op{
+				{"Len", func(r *rand.Rand) { _ = q.Len() }},
+				{"AsSlice", func(r *rand.Rand) {
+					if s := q.AsSlice(); len(s) > 0 {
+						s[r.Intn(len(s))]++
+					}
+				}},
+				{"Enqueue+Dequeue", func(r *rand.Rand) {
+					ctx, c := short(r)
+					_ = q.Enqueue(ctx, r.Intn(100))
+					_, _ = q.Dequeue(ctx)
+					c()
+				}},
+			}, none
+		}}, 2},
+		{subject{"ConcurrentArrayBlockingQueue/big", func(r *rand.Rand) ([]op, func()) {
+			n := size(r)
+			q := queue.NewConcurrentArrayBlockingQueue[int](2 * n)
+			for i := 0; i < n; i++ {
+				_ = q.Enqueue(context.Background(), i)
+			}
+			return []op{
+				{"Len", func(r *rand.Rand) { _ = q.Len() }},
+				{"AsSlice", func(r *rand.Rand) { _ = q.AsSlice() }},
+				{"Enqueue+Dequeue", func(r *rand.Rand) {
+					ctx, c := short(r)
+					_ = q.Enqueue(ctx, r.Intn(100))
+					_, _ = q.Dequeue(ctx)
+					c()
+				}},
+			}, none
+		}}, 2},
+		{subject{"DelayQueue/big", func(r *rand.Rand) ([]op, func()) {
+			// no read-only method: several dequeuers (Peek inside Dequeue) against one enqueuer over a heap of >= 100
+			n := size(r)
+			q := queue.NewDelayQueue[delayed](2 * n)
+			for i := 0; i < n; i++ {
+				_ = q.Enqueue(context.Background(), delayed{time.Now().Add(time.Duration(r.Intn(4000)-2000) * time.Microsecond)})
+			}
+			return []op{
+				{"Dequeue", func(r *rand.Rand) { ctx, c := short(r); _, _ = q.Dequeue(ctx); c() }},
+				{"Enqueue", func(r *rand.Rand) {
+					ctx, c := short(r)
+					_ = q.Enqueue(ctx, delayed{time.Now().Add(time.Duration(r.Intn(400)-100) * time.Microsecond)})
+					c()
+				}},
+			}, none
+		}}, 1},
 	}
 }
 
@@ -436,6 +584,23 @@ func main(args []string) {
 		for it := 0; it < iters; it++ {
 			ws := seed*7919 + int64(si)*131 + int64(it)
 			runWorkload(s, "mixed|*", ws, 4, 3*k, func(r *rand.Rand, g, n int) int { return r.Intn(n) })
+			workloads++
+		}
+	}
+	// big containers: 3 readers (goroutines 1..3) and one writer (goroutine 0)
+	for si, b := range bigSubjects() {
+		if filter != "" && !strings.Contains(b.name, filter) {
+			continue
+		}
+		for it := 0; it < iters; it++ {
+			ws := seed*104729 + int64(si)*977 + int64(it)
+			nr := b.readers
+			runWorkload(b.subject, "readers|writer", ws, 4, 4*k, func(r *rand.Rand, g, n int) int {
+				if g == 0 {
+					return nr + r.Intn(n-nr)
+				}
+				return r.Intn(nr)
+			})
 			workloads++
 		}
 	}
